@@ -129,7 +129,7 @@ func genFScripts(r *Rng, prefix string, max int, panicPct int) []FScript {
 			Post: genActions(r, r.Intn(3), panicPct), Fresh: r.Pct(12), Wrap: r.Pct(8)}
 		if r.Pct(15) {
 			// an http middleware: it only has the ResponseWriter and the *http.Request
-			f.MW, f.Fresh, f.Wrap = 1+r.Intn(2), false, false
+			f.MW, f.Fresh, f.Wrap = 1+r.Intn(3), false, false
 			keep := func(l []Action) []Action {
 				out := []Action{}
 				for _, a := range l {
@@ -155,7 +155,7 @@ func genDisp(r *Rng) Sx {
 	// make sure "/" is served so that ServeHTTP reaches dispatch for every path
 	hasRoot := false
 	for _, s := range t.Services {
-		if s.Root == "/" {
+		if s.Root == "/" || s.Root == "" {
 			hasRoot = true
 		}
 	}
@@ -167,7 +167,7 @@ func genDisp(r *Rng) Sx {
 		seen := map[string]bool{}
 		keep := []ServiceSpec{}
 		for _, s := range t.Services {
-			if s.Root != "/" {
+			if s.Root != "/" && s.Root != "" {
 				s.Root = strings.TrimRight(s.Root, "/")
 			}
 			if !seen[s.Root] {
@@ -544,6 +544,11 @@ func mkFilter(f FScript, env *dispEnv) restful.FilterFunction {
 					if f.MW == 2 {
 						r = r.WithContext(context.WithValue(r.Context(), ctxKey("mw"), f.ID))
 					}
+					if f.MW == 3 {
+						// a request of the middleware's own making: the same content, a context that is NOT derived
+						// from the one it was given
+						r = r.Clone(context.WithValue(context.Background(), ctxKey("mw"), f.ID))
+					}
 					next.ServeHTTP(w, r)
 				}
 				runHTTPActions(f.Post, w)
@@ -606,8 +611,14 @@ func buildDisp(cfg Sx, env *dispEnv) *restful.Container {
 	// is registered; the value at serving time is what counts
 	flipLate := len(t.Services)%2 == 0
 	c.EnableContentEncoding(sxBool(sxNth(cfg, 5)) != flipLate)
-	c.DoNotRecover(!sxBool(sxNth(cfg, 6)))
 	rscript := actionsFromSx(sxNth(cfg, 7))
+	// set-up order: recovery switched on before or after the recover handler is configured
+	switchLate := len(rscript)%2 == 1
+	if !switchLate {
+		c.DoNotRecover(!sxBool(sxNth(cfg, 6)))
+	} else {
+		defer c.DoNotRecover(!sxBool(sxNth(cfg, 6)))
+	}
 	if !isDefaultReport(rscript) {
 		c.RecoverHandler(func(reason interface{}, w http.ResponseWriter) {
 			// the request is not passed to the handler: the log is found through a header the harness sets on the writer
